@@ -73,6 +73,36 @@ func foldScenario(name string) string {
 // non-empty interface type can hold none of the values a stream delivers; the
 // only acceptable outcomes are an error, or success that leaves a usable target.
 func unfoldScenario(name string) string {
+	if name == "refused_then_related" {
+		// A is refused (chan member); B refers to A: SetTarget(&B) on the same
+		// unfolder and a document for it must end in an error (or a usable
+		// target), not in a crash
+		var first, second, third error
+		o := guard(func() error {
+			u, err := gotype.NewUnfolder(nil)
+			if err != nil {
+				return err
+			}
+			first = u.SetTarget(&scA{})
+			b := &scB{}
+			second = u.SetTarget(b)
+			if second == nil {
+				_, third = model.Apply([]model.Ev{{K: model.KObjStart, L: 1}, {K: model.KKey, S: []byte("a")}, {K: model.KObjStart, L: 1}, {K: model.KKey, S: []byte("b")}, {K: model.KNil}, {K: model.KObjEnd}, {K: model.KObjEnd}}, structform.Visitor(u))
+			}
+			return nil
+		})
+		if o.Panicked() {
+			return fmt.Sprintf("one unfolder: SetTarget(&A{}) = %v (A has a chan member), SetTarget(&B{}) = %v (B holds *A), then unfolding {\"a\":{\"b\":null}} panics: %v\n%s", first, second, o.Panic, o.Stack)
+		}
+		if o.Err != nil {
+			return "NewUnfolder fails: " + o.Err.Error()
+		}
+		if first == nil {
+			return "SetTarget accepts a struct with a chan member"
+		}
+		_ = third
+		return ""
+	}
 	var target any
 	var use func() string
 	var evs []model.Ev
@@ -127,6 +157,6 @@ func unfoldScenario(name string) string {
 }
 
 var foldScenarios = []string{"bad_option", "refused_then_related"}
-var unfoldScenarios = []string{"stringer_field", "error_slice", "error_map", "stringer_top"}
+var unfoldScenarios = []string{"stringer_field", "error_slice", "error_map", "stringer_top", "refused_then_related"}
 
 var _ = gomodel.Pool
